@@ -450,6 +450,12 @@ inductive Item where
   | optref (ref : Str) (unit : Option Str)                     -- option line `= {ref} unit`
   | case (indent : Nat) (k : CaseKind)
 
+/-- `description = str(raw)` the first time, `description += str(raw)` afterwards -/
+def addDescr (old : Option Str) (d : Str) : Option Str :=
+  match old with
+  | none => some d
+  | some o => some (o ++ d)
+
 def isTyped : Kw → Bool
   | .bool => true | .int => true | .float => true | .str => true
   | _ => false
@@ -474,9 +480,7 @@ def applyProp (p : PropLine) (n : Node) : Except String Node :=
     if n.kw = .int ∨ n.kw = .float ∨ n.kw = .str then .ok { n with options := n.options ++ [(r, u)] }
     else .error "options"
   | .description d =>
-    if isTyped n.kw then .ok { n with description := match n.description with
-      | none => some d
-      | some old => some (old ++ d) }
+    if isTyped n.kw then .ok { n with description := addDescr n.description d }
     else .error "description"
 
 /-- `self.inject_value(env, host)` for a host that is not a node of the list (`$unit`, option
@@ -845,9 +849,7 @@ def sStep (tbl : UnitTable) (env : SEnv) : SStmt → Except SErr SEnv
   | .caseCond _ => .error .outside      -- clauses are handled by `sStepC`
   | .caseElse => .error .outside
   | .caseEnd => .error .outside
-  | .description path d => sAttr env path (fun n => { n with description := match n.description with
-      | none => some d
-      | some old => some (old ++ d) })
+  | .description path d => sAttr env path (fun n => { n with description := addDescr n.description d })
 
 /-- `valueAt`: the environment the last-assignment semantics gives after the statements -/
 def sRun (tbl : UnitTable) (env : SEnv) : List SStmt → Except SErr SEnv
